@@ -34,6 +34,8 @@ def gen(ctx):
     for kind in ("chan", "unix"):
         for mode in ("b", "nb"):
             yield Case("XPT", "over %s %s" % (kind, mode), tags=("oversize",))
+    yield Case("XPT", "rawaddr b", tags=("rawaddr",))
+    yield Case("XPT", "rawaddr nb", tags=("rawaddr",))
     yield Case("XPT", "dead chan", tags=("dead",))
     yield Case("XPT", "dead unix", tags=("dead",))
     big = 20000 if ctx.thorough else 3000
@@ -52,6 +54,8 @@ def gen(ctx):
         for n in (1, 2, 3, 4):
             yield Case("XPT", "unix %s %d %d %d 1024" % (mode, n, big // 4, rng.randrange(1000)), tags=("skbuf",))
             yield Case("XPT", "unix %s %d 17 %d 64" % (mode, n, rng.randrange(1000)), tags=("skbuf",))
+        # only a small receive buffer requested (n = 2: new_with_skbuf(None, Some(4096))), datagrams up to 32 KiB
+        yield Case("XPT", "unix %s 2 40 %d 32768" % (mode, rng.randrange(1000)), tags=("skbuf",))
     # bidirectional traffic: the receiver has itself sent to one peer before other peers send to it
     for mode in ("bd", "nbd", "bsd"):
         for n in (2, 3, 4):
@@ -79,7 +83,7 @@ def project(c, r):
 
 def classify(c, r):
     a = c.args.split(" ")
-    if a[0] in ("dead", "over"):
+    if a[0] in ("dead", "over", "rawaddr"):
         return [a[0] + ":" + r]
     inter = 0
     if r.startswith("SENT "):
@@ -95,11 +99,11 @@ def classify(c, r):
 
 def nontrivial(c, r):
     a = c.args.split(" ")
-    return a[0] not in ("dead", "over") and (int(a[2]) >= 2 or int(a[3]) >= 100)
+    return a[0] not in ("dead", "over", "rawaddr") and (int(a[2]) >= 2 or int(a[3]) >= 100)
 
 
 def oracle(c, impl_res):
     a = c.args.split(" ")
-    if a[0] in ("dead", "over"):
+    if a[0] in ("dead", "over", "rawaddr"):
         return ("ORC", "C19 %s @@ %s" % (a[0], impl_res))
     return ("ORC", "C19 %s %s %s %s %s @@ %s" % (a[2], a[3], a[4], a[5], a[1], impl_res))
